@@ -112,4 +112,4 @@ impl ZXKey {
 
 #[cfg(kani)]
 #[path = "/verif/hooks/core/keys.rs"]
-mod verif_hooks;
+pub(crate) mod verif_hooks;
